@@ -366,6 +366,35 @@ func c08Run(c c08Case, o *hx.Obs) {
 
 var c08Queries = []string{"", "", "", "depth=1", "content=config", "content=nonconfig", "fields=nothere", "with-defaults=trim", "fc.xfields=x", "fc.max-node-count=1"}
 
+// plantEmptyKey gives the first entry of every list with a single string key the empty string as its key (when no
+// other entry has it).
+func plantEmptyKey(n *dm.Node, tr dm.Tree) {
+	for _, d := range n.DataChildren() {
+		switch v := tr[d.Name].(type) {
+		case dm.Tree:
+			if d.Kind == "container" {
+				plantEmptyKey(d, v)
+			}
+		case []interface{}:
+			if d.Kind != "list" {
+				continue
+			}
+			if len(d.Keys) == 1 && d.Child(d.Keys[0]).Type.Eff().Base == "string" && len(v) > 0 {
+				taken := false
+				for _, e := range v {
+					taken = taken || e.(dm.Tree)[d.Keys[0]] == ""
+				}
+				if !taken {
+					v[0].(dm.Tree)[d.Keys[0]] = ""
+				}
+			}
+			for _, e := range v {
+				plantEmptyKey(d, e.(dm.Tree))
+			}
+		}
+	}
+}
+
 func c08Gen(t *rapid.T) c08Case {
 	o := dm.DefaultGen()
 	store := rapid.SampledFrom([]string{"rs", "rs", "reflect-map"}).Draw(t, "store")
@@ -381,6 +410,9 @@ func c08Gen(t *rapid.T) c08Case {
 	m := dm.GenModule(t, o)
 	root := m.Root()
 	data := dm.GenTree(t, root, dm.TreeOpts{MaxEntries: 3, PresentPct: 80, NoEmptyStr: true})
+	if rapid.IntRange(0, 3).Draw(t, "empty-key") == 0 {
+		plantEmptyKey(root, data) // RFC 8040 3.5.3: "list=" addresses the entry whose key is the empty string
+	}
 	c := c08Case{Module: m, Data: data, Store: store, Mode: "present",
 		Qualify: rapid.IntRange(0, 3).Draw(t, "qualify") == 0, Trailing: rapid.IntRange(0, 3).Draw(t, "trailing") == 0,
 		EncodeAll: rapid.IntRange(0, 3).Draw(t, "encodeAll") == 0, Query: rapid.SampledFrom(c08Queries).Draw(t, "query")}
